@@ -83,6 +83,7 @@ def generate(prop, rng):
         "tick_ns": rng.choice([1000, 1_000_000, 1_000_000_000]),
         "big_threshold": rng.choice([None, None, 0, 3]),
         "faulty": faulty,
+        "non_atomic_remote": faulty and rng.random() < 0.4,
     }
     md5_stores = ["A", "B", "G", "R"]
     ops = []
@@ -172,6 +173,8 @@ def generate(prop, rng):
                 "stage": rng.choice(["create", "mid", "rename", "put_lost", "ack_lost", "protect", "protect", "get_mid", "get_mid"]),
                 "exc": rng.choice(["EIO", "ENOSPC", "ConnectionError"]),
             }
+            if cfg["non_atomic_remote"] and (op.get("dest") == "R" or op.get("store") == "R") and rng.random() < 0.6:
+                op["fault"].update(stage="partial", exc=rng.choice(["EIO", "ConnectionError"]))
             if kind == "xfer" and op.get("src") == "R" and op.get("dest") != "R" and rng.random() < 0.6:
                 op["fault"]["stage"] = "get_mid"  # a download that breaks off half way
             if op["fault"]["stage"] == "protect":
@@ -271,6 +274,9 @@ class Hist:
             if d["state"]:
                 conf["state"] = self.st()
             self.odbs[name] = self.w.odb(self.dirname(name), d["kind"], **conf)
+            if d["kind"] == "remote" and self.cfg.get("non_atomic_remote"):
+                # a remote without temp + rename: a put that fails part-way leaves a truncated object
+                self.w.remote_fs(self.dirname(name)).non_atomic = True
         return self.odbs[name]
 
     @staticmethod
@@ -315,6 +321,7 @@ def _apply_fault(ctx, op):
         "protect": ("chmod",),
         "get_mid": ("r_get_mid",),
         "read": ("open_r",),
+        "partial": ("r_put_mid",),
     }[f["stage"]]
     ctx.seam.faults = [{"at": at, "match": None, "nth": f["nth"], "exc": f["exc"], "name": f["stage"], "count": f.get("count", 1)}]
 
